@@ -15,14 +15,14 @@ R5  the stage list does not flow into any call made by the analysis region (so s
 from __future__ import annotations
 
 import ast
-from typing import List, Optional, Set, Tuple
+from typing import Dict, List, Optional, Set, Tuple
 
 from ..absint import Evaluator, Const, EnumMember, EnumClass, TOP, NOT_HANDLED
 from ..cfg import cfg_of, Node
 from ..model import unparse, stmt_key, Func, AnchorError
 from .common import (
     Ctx, find_api_functions, user_calls, store_calls, effect_sites, unowned_holders, holders, is_store_impl,
-    witness_path, dominated, STORE_MUT,
+    witness_path, dominated, STORE_MUT, done_nodes,
 )
 
 PROP = "C15"
@@ -225,3 +225,60 @@ def run(ctx: Ctx) -> None:
     else:
         rep.ok("C15.R4", parser.qname, f"{len(dis)} ill-formed stage lists are rejected with a DDSException", parser.loc())
     rep.floor("C15.R4", n4, 20)
+
+    # ---- R6: an evaluation leaves no module-level state behind ------------------------------------------------------
+    rep.rule("C15.R6", "every module global that an evaluation function sets to a value is reset on every exit (normal or exceptional): "
+                       "nothing a restricted run computed can be picked up by a later evaluation")
+    n6 = 0
+    api = prog.module("dds._api")
+    for f in (top, nested):
+        declared: Set[str] = set()
+        for n in f.own_nodes():
+            if isinstance(n, ast.Global):
+                declared.update(n.names)
+        if not declared:
+            continue
+        fcfg = cfg_of(f)
+        # per global: element-wise (target, value) pairs of its assignments
+        per: Dict[str, List[Tuple[ast.stmt, Optional[ast.AST]]]] = {}
+        for n in f.own_nodes():
+            if isinstance(n, ast.Assign):
+                for t in n.targets:
+                    if isinstance(t, ast.Name) and t.id in declared:
+                        per.setdefault(t.id, []).append((n, n.value))
+                    elif isinstance(t, (ast.Tuple, ast.List)):
+                        for i, e in enumerate(t.elts):
+                            if isinstance(e, ast.Name) and e.id in declared:
+                                v = n.value.elts[i] if isinstance(n.value, (ast.Tuple, ast.List)) and len(n.value.elts) == len(t.elts) else None
+                                per.setdefault(e.id, []).append((n, v))
+            elif isinstance(n, (ast.AnnAssign, ast.AugAssign)) and isinstance(n.target, ast.Name) and n.target.id in declared:
+                per.setdefault(n.target.id, []).append((n, n.value))
+        for g, assigns in sorted(per.items()):
+            resets = [st for st, v in assigns if isinstance(v, ast.Constant) and v.value is None]
+            reset_nodes = [x for r in resets for x in fcfg.nodes_of(r)]
+            fin_tags = {x.tag for x in reset_nodes if x.tag}
+
+            def edge_ok(a, b, lab, _ft=fin_tags):
+                return not (lab == "exc" and a.tag in _ft)
+
+            read_elsewhere = any(isinstance(x, ast.Name) and x.id == g and isinstance(x.ctx, ast.Load) for h in api.funcs.values() for x in h.own_nodes())
+            for st, v in assigns:
+                if isinstance(v, ast.Constant) and v.value is None:
+                    continue
+                n6 += 1
+                desc = f"`{unparse(st, 50)}`: {g} is reset before the evaluation returns or raises"
+                badp = None
+                for d in done_nodes(fcfg, st):
+                    pth = fcfg.find_path([d], [fcfg.exit, fcfg.exc_exit], avoid=reset_nodes, edge_ok=edge_ok)
+                    if pth is not None:
+                        badp = pth
+                        break
+                if badp is None:
+                    rep.ok("C15.R6", f.qname, desc, f.loc(st))
+                elif not read_elsewhere:
+                    rep.ok("C15.R6", f.qname, f"`{unparse(st, 50)}`: {g} survives the evaluation but nothing reads it", f.loc(st), nontrivial=False)
+                else:
+                    rep.bad("C15.R6", f.qname, desc, f.loc(st), [f"{g} keeps the value after the evaluation ended, and is read again by the API module:"] + witness_path(fcfg, f, badp),
+                            "global:" + g, what=f"module-level state `{g}` set by one evaluation (a dry run included) is visible to the next evaluation")
+    rep.floor("C15.R6", n6, 1)
+
